@@ -64,7 +64,15 @@ func c09Groups(seed int64, sc c09Scenario, S *party) []*protocoltypes.Group {
 		gs = append(gs, detGroupMultiMember(seed, "G1"))
 	}
 	if sc.Groups == 2 {
-		gs = append(gs, detGroupMultiMember(seed, "G2"))
+		if sc.Kind == "contact" {
+			// a second group in which the device uses the SAME device key (account and contact groups share it; each
+			// multi-member group has its own): the two chains must stay apart
+			g, _, err := S.st.GetGroupForAccount()
+			must(err)
+			gs = append(gs, g)
+		} else {
+			gs = append(gs, detGroupMultiMember(seed, "G2"))
+		}
 	}
 	return gs
 }
